@@ -151,6 +151,11 @@ def gen_cases(rng, tier):
             cases.append([cid, "c16", "tsx", script, ops])
     for n in (3, 40):
         cases.append(["gap-%d" % n, "c16", "ua", "uas", "quiesce", _gap_flood(n), "1"])
+    # STUN client transactions: every way a call can end (response, timeout, transport error, abandoned by the caller)
+    k = 0
+    for resp in ("-", "100", "1700", "40000"):
+        for mode in ("-", "senderr:0", "senderr:3", "abandon:1", "abandon:3000", "abandon:62000"):
+            cases.append(["stun%d" % k, "c16", "stun", "0", resp, "-", mode]); k += 1
     # UA scenarios of the neighbouring properties, with everything dropped at a random step and quiescence at the end
     for mod, take in (("c12", 60), ("c13", 60), ("c17", 40)):
         P = importlib.import_module("props." + mod)
@@ -185,6 +190,8 @@ def _gap_flood(n):
 
 
 def model_case(case, impl):
+    if case[2] == "stun":
+        return [case[0], "c16", "stun"]
     if case[2] == "tsx":
         return [case[0], "c16", "ops", case[4]]
     return [case[0], "c16", "quiesce"]
@@ -196,6 +203,9 @@ def _probes(s):
 
 def normalize_impl(case, s):
     s = s.split("\tPANIC")[0]
+    if case[2] == "stun":
+        m = re.search(r"pending=(\d+)/(\d+)", s)
+        return "pending=%s/%s" % m.groups() if m else "pending=?"
     if case[2] == "tsx":
         return " ".join("P@%s:tsx%s" % p for p in _probes(s))
     m = re.search(r"quiesced=\S+", s)
@@ -206,6 +216,13 @@ def oracle(case, impl):
     out = []
     if "PANIC" in impl:
         return ["panic: " + impl[-300:]]
+    if case[2] == "stun":
+        m = re.search(r"pending=(\d+)/(\d+)", impl)
+        if not m:
+            return ["no observation: " + impl[:200]]
+        if m.group(1) != "0" or m.group(2) != "0":
+            out.append("STUN transaction entry outlives the call (%s): pending=%s after the call returned, %s later" % (case[6], m.group(1), m.group(2)))
+        return out
     if case[2] == "tsx":
         full = re.findall(r"P@(\d+):tsx(\d+)/tp(\d+)/dlg(\d+)/backlog(\d+)/cancel(\d+)", impl)
         if not full:
@@ -241,6 +258,8 @@ def known(case, impl, violation, findings):
 
 
 def nontrivial(case, impl):
+    if case[2] == "stun":
+        return "|".join(case[3:])
     if case[2] == "tsx":
         return case[3]
     return case[5]
@@ -253,10 +272,12 @@ def distribution(cases, impl):
         if x[2] == "tsx":
             for it in x[3].split(","):
                 c["tsx:" + it.split(":")[1]] += 1
-        else:
+        elif x[2] == "ua":
             c["ua:" + x[0].split("-")[1]] += 1
             if "abortall" in x[5]:
                 c["ua:early-drop"] += 1
+        else:
+            c["stun:" + x[6].split(":")[0]] += 1
     return dict(c)
 
 
